@@ -113,6 +113,9 @@ func genHistory(g *gen.Gen, n int, timed bool) []op {
 			}
 		default:
 			o.Op = "clear"
+			if g.Intn(3) == 0 {
+				o.Op = "delete" // the location's records are deleted; the location object stays in use
+			}
 		}
 		h = append(h, o)
 	}
@@ -137,6 +140,8 @@ func apply(loc *core.Location, o op) error {
 		_, err = loc.SetParents(ctx, o.Parents)
 	case "clear":
 		err = loc.Clear(ctx)
+	case "delete":
+		err = loc.Delete(ctx)
 	}
 	return err
 }
